@@ -1425,6 +1425,246 @@ def histories(ctx, drv, rng):
                               dict(kind="history", holder=holder, params=sp, ops=cur), key="history:%s" % ("krige" if holder in KRIGE_LIKE else holder))
 
 
+# ------------------------------------------------------------------------------------------- public accessors
+
+def acc_get_mean(ctx, drv, rng):
+    """Krige.get_mean(post_process) and krige(pos, only_mean=True) on every kriging class x normalizer x mean/trend kind against
+    the model: get_mean = denormalize(raw mean + mean), only_mean field = trend + get_mean, raw mean = 0 without unbiasedness"""
+    import gstools as gs
+    reps = 3 if ctx.tier == "thorough" else 1
+    norms = [("Normalizer", 1.0, 0.0), ("LogNormal", 1.0, 0.0), ("BoxCox", 0.5, 0.0), ("BoxCox", 0.0, 0.0), ("BoxCox", -0.7, 0.0),
+             ("BoxCoxShift", 0.6, 0.8), ("YeoJohnson", 0.4, 0.0), ("YeoJohnson", 2.6, 0.0), ("Modulus", 1.4, 0.0), ("Modulus", -0.6, 0.0),
+             ("Manly", 0.3, 0.0), ("Manly", -0.4, 0.0)]
+    classes = ["Simple", "Ordinary", "Universal", "ExtDrift", "Detrended", "Krige-unbiased", "Krige-biased"]
+    for rep in range(reps):
+        for cls in classes:
+            for nm in norms:
+                name, lam, sh = nm
+                dim = int(rng.integers(1, 3))
+                nc = int(rng.integers(4, 8))
+                cpos = [np.sort(rng.uniform(0, 6, nc)) + 0.37 * j for j in range(dim)]
+                cval = np.exp(rng.normal(0.6, 0.35, nc)).clip(0.8, 6)
+                msp = [None, ["const", float(rng.uniform(0.1, 0.6))], ["lin", 0.2, 0.05]][int(rng.integers(3))]
+                tsp = [None, ["const", float(rng.uniform(-0.3, 0.3))], ["lin", 0.1, 0.03]][int(rng.integers(3))]
+                if cls == "Detrended":
+                    msp, tsp = None, ["lin", 0.1, 0.03]
+                if cls == "Ordinary" and msp is not None and msp[0] == "lin":
+                    msp = None
+                model = gs.Exponential(dim=dim, var=0.5, len_scale=2.0)
+                nz = make(name, lam, sh)
+                mean, trend = fv_of(msp), fv_of(tsp)
+                desc = dict(kind="get_mean", cls=cls, normalizer=name, lmbda=C.fhex(lam), shift=C.fhex(sh), mean=msp, trend=tsp,
+                            cond_pos=[c.tolist() for c in cpos], cond_val=cval.tolist(), dim=dim)
+                tpos = [rng.uniform(0, 6, 4) for _ in range(dim)]
+                edrift = None
+                with Quiet():
+                    try:
+                        if cls == "Simple":
+                            kr = gs.krige.Simple(model, cpos, cval, mean=mean, normalizer=nz, trend=trend)
+                        elif cls == "Ordinary":
+                            kr = gs.krige.Ordinary(model, cpos, cval, normalizer=nz, trend=trend)
+                            if msp is not None:
+                                kr.mean = mean
+                        elif cls == "Universal":
+                            kr = gs.krige.Universal(model, cpos, cval, "linear", normalizer=nz, trend=trend)
+                            if msp is not None:
+                                kr.mean = mean
+                        elif cls == "ExtDrift":
+                            kr = gs.krige.ExtDrift(model, cpos, cval, rng.normal(size=nc), normalizer=nz, trend=trend)
+                            edrift = rng.normal(size=4)
+                            if msp is not None:
+                                kr.mean = mean
+                        elif cls == "Detrended":
+                            kr = gs.krige.Detrended(model, cpos, cval, trend)
+                            kr.normalizer = nz
+                        else:
+                            kr = gs.krige.Krige(model, cpos, cval, mean=mean, normalizer=nz, trend=trend, unbiased=(cls == "Krige-unbiased"))
+                        gm_t = kr.get_mean()
+                        gm_f = kr.get_mean(post_process=False)
+                        kwd = dict(ext_drift=edrift) if edrift is not None else {}
+                        om_t = np.asarray(kr(tpos, only_mean=True, **kwd), dtype=float)
+                        om_f = np.asarray(kr(tpos, only_mean=True, post_process=False, **kwd), dtype=float)
+                        # getters return what the object was given
+                        def same_fv(got, given):
+                            if callable(given):
+                                return got is given
+                            return (got is None or got == 0.0) if given is None else (got == given)
+                        getters_ok = (kr.normalizer is nz) and same_fv(kr.mean, mean) and (cls == "Detrended" or same_fv(kr.trend, trend))
+                    except Exception as e:
+                        ctx.violation("probe: get_mean / only_mean raised", "%s with %s: %r" % (cls, name, e), desc, key="get_mean-raise:%s" % cls)
+                        continue
+                ctx.count(("get_mean", cls, name, lam_class(lam), "none" if msp is None else msp[0], "none" if tsp is None else tsp[0]),
+                          hist=dict(accessor="get_mean/only_mean", acc_class=cls, acc_norm=name))
+                drift = cls in ("Universal", "ExtDrift")
+                const_mean = msp is None or msp[0] == "const"
+                mval = 0.0 if msp is None else (float(msp[1]) if msp[0] == "const" else None)
+                pts = np.array(tpos, dtype=float).reshape(dim, -1)
+                trends = eval_on(trend, pts, dim, "scalar", None)
+                means = eval_on(mean, pts, dim, "scalar", None)
+                msgs = []
+                if not getters_ok:
+                    msgs.append("the mean / normalizer / trend getters do not return what was given (mean %r, trend %r)" % (kr.mean, kr.trend))
+                # only_mean field (post-processed) = trend + denormalize(mean + raw only_mean field): the pipeline, for every class
+                mo = drv.call("apply_field", ("n", KINDS[name]), lam, sh, means, trends, om_f.ravel())
+                So = np.abs(om_t.ravel() - trends) + np.abs(trends) + abs(sh) + 2
+                if not agree(om_t, mo, So).all():
+                    msgs.append("krige(pos, only_mean=True) = %r but trend + denormalize(mean + raw mean field %r) = %r" % (om_t.tolist(), om_f.tolist(), np.asarray(mo).tolist()))
+                if drift:
+                    if gm_t is not None or gm_f is not None:
+                        msgs.append("get_mean with drift terms returned %r / %r, documented: None" % (gm_t, gm_f))
+                else:
+                    unbiased = cls in ("Ordinary", "Krige-unbiased")
+                    if gm_f is None or not np.ndim(gm_f) == 0:
+                        msgs.append("get_mean(post_process=False) = %r" % (gm_f,))
+                    else:
+                        gm_f = float(gm_f)
+                        if not unbiased and gm_f != 0.0:
+                            msgs.append("get_mean(post_process=False) = %r for a kriging system without unbiasedness condition (raw mean 0)" % gm_f)
+                        if not C.close(om_f, np.full(om_f.shape, gm_f), rtol=1e-9, atol=1e-12):
+                            msgs.append("get_mean(post_process=False) = %r but krige(pos, only_mean=True, post_process=False) = %r" % (gm_f, om_f.tolist()))
+                        if const_mean:
+                            ref = float(np.asarray(drv.call("denormalize", ("n", KINDS[name]), lam, sh, np.array([gm_f + mval])))[0])
+                            got = float("nan") if gm_t is None else float(gm_t)
+                            Sg = abs(ref) + abs(sh) + 2
+                            if gm_t is None or not agree(np.array([got]), np.array([ref]), Sg).all():
+                                msgs.append("get_mean() = %r but denormalize(raw mean %r + mean %r) = %r" % (gm_t, gm_f, mval, ref))
+                            elif not agree(om_t, got + trends, So).all():
+                                msgs.append("krige(pos, only_mean=True) = %r but get_mean() + trend = %r" % (om_t.tolist(), (got + trends).tolist()))
+                        elif gm_t is not None:
+                            msgs.append("get_mean() = %r with a non-constant mean, documented: None" % (gm_t,))
+                if msgs:
+                    ctx.violation("probe: get_mean / only_mean vs the pipeline", "%s(mean=%r, normalizer=%s(lmbda=%r), trend=%r): %s" % (cls, msp, name, lam, tsp, "; ".join(msgs)),
+                                  desc, key="get_mean:%s" % ("drift" if drift else "const" if const_mean else "callable"))
+
+
+def acc_input_classes(ctx, rng):
+    """Normalizer methods with every input class (0-d array, numpy / Python scalars, lists, tuples, one-element and nested lists,
+    int and float32 arrays, masked arrays): same values as the float64 array of the same data; likelihoods and fit likewise"""
+    cfgs = [("LogNormal", 1.0, 0.0), ("BoxCox", 0.5, 0.0), ("BoxCox", -1.0, 0.0), ("BoxCoxShift", 0.7, 1.2), ("YeoJohnson", 0.4, 0.0),
+            ("YeoJohnson", -1.0, 0.0), ("Modulus", -0.5, 0.0), ("Manly", 0.3, 0.0), ("Manly", -1.0, 0.0), ("Normalizer", 1.0, 0.0)]
+    for name, lam, sh in cfgs:
+        nz = make(name, lam, sh)
+        base = np.array([0.5, 2.0, -1.0, 3.0, 0.25, 7.0, np.nan, -0.3])
+        ints = np.array([1, 2, 3, -1, 5])
+        variants = [("list", base.tolist(), base), ("tuple", tuple(base.tolist()), base), ("nested list", base.reshape(2, 4).tolist(), base.reshape(2, 4)),
+                    ("one-element list", [2.0], np.array([2.0])), ("int array", ints, ints.astype(float)), ("int list", ints.tolist(), ints.astype(float)),
+                    ("float32 array", base.astype(np.float32), base.astype(np.float32).astype(float)),
+                    ("0-d array", np.array(2.0), np.array(2.0)), ("numpy float", np.float64(2.0), np.array(2.0)), ("python float", 2.0, np.array(2.0)),
+                    ("python int", 2, np.array(2.0)), ("0-d NaN", np.array(np.nan), np.array(np.nan)), ("numpy float32 scalar", np.float32(0.5), np.array(0.5)),
+                    ("masked array without masked entries", np.ma.array(base[:6]), base[:6]),
+                    ("non-contiguous view", np.stack([base, base])[:, ::2], np.stack([base, base])[:, ::2].copy()),
+                    ("empty array", np.array([]), np.array([]))]
+        for vname, v, ref_in in variants:
+            ctx.count(("input-class", name, vname), hist=dict(accessor="input class", input_class=vname))
+            case = dict(kind="input-class", normalizer=name, lmbda=C.fhex(lam), shift=C.fhex(sh), input_class=vname, data=hexl(ref_in))
+            for fn in ("normalize", "denormalize", "derivative"):
+                with Quiet():
+                    ref = np.asarray(getattr(nz, fn)(np.array(ref_in, dtype=float)), dtype=float)
+                    try:
+                        got = np.asarray(getattr(nz, fn)(v), dtype=float)
+                    except Exception as e:
+                        ctx.violation("probe: input classes", "%s(lmbda=%r).%s(<%s>) raised %s: %s; the float64 array of the same data gives %r" % (
+                            name, lam, fn, vname, type(e).__name__, e, ref.tolist()), dict(case, fn=fn), key="input-class:raise")
+                        continue
+                if got.shape != ref.shape or not C.bit_equal(got, ref):
+                    ctx.violation("probe: input classes", "%s(lmbda=%r).%s(<%s> %r) = %r, the float64 array of the same data gives %r" % (
+                        name, lam, fn, vname, v if np.size(v) < 9 else "...", got.tolist(), ref.tolist()), dict(case, fn=fn), key="input-class:value")
+            if np.size(ref_in) >= 1:
+                for fn in ("kernel_loglikelihood", "loglikelihood", "likelihood"):
+                    with Quiet():
+                        ref = float(getattr(nz, fn)(np.array(ref_in, dtype=float)))
+                        try:
+                            got = float(getattr(nz, fn)(v))
+                        except Exception as e:
+                            ctx.violation("probe: input classes", "%s(lmbda=%r).%s(<%s>) raised %s: %s; the float64 array gives %r" % (
+                                name, lam, fn, vname, type(e).__name__, e, ref), dict(case, fn=fn), key="input-class:raise")
+                            continue
+                    if not (C.bit_equal(got, ref) or C.close(got, ref, rtol=1e-12)):
+                        ctx.violation("probe: input classes", "%s(lmbda=%r).%s(<%s>) = %r, the float64 array of the same data gives %r" % (
+                            name, lam, fn, vname, got, ref), dict(case, fn=fn), key="input-class:value")
+            if np.size(ref_in) >= 5 and "lmbda" in type(nz).default_parameter:
+                with Quiet():
+                    a, b = make(name, lam, sh), make(name, lam, sh)
+                    sk = ["shift"] if name == "BoxCoxShift" else None
+                    try:
+                        ra, rb = a.fit(np.array(ref_in, dtype=float), skip=sk), b.fit(v, skip=sk)
+                    except Exception as e:
+                        ctx.violation("probe: input classes", "%s.fit(<%s>) raised %r" % (name, vname, e), dict(case, fn="fit"), key="input-class:raise")
+                        continue
+                if not C.bit_equal(float(ra["lmbda"]), float(rb["lmbda"])):
+                    ctx.violation("probe: input classes", "%s.fit(<%s>) -> %r, on the float64 array of the same data -> %r" % (name, vname, rb, ra),
+                                  dict(case, fn="fit"), key="input-class:value")
+
+
+def acc_helpers(ctx, drv, rng):
+    """apply_mean_norm_trend / remove_trend_norm_mean called directly: check_shape on/off, stacked fields, both mesh types, lists"""
+    from gstools.normalizer import apply_mean_norm_trend, remove_trend_norm_mean
+    reps = 4 if ctx.tier == "thorough" else 1
+    for rep in range(reps):
+        for nm in [("Normalizer", 1.0, 0.0), ("BoxCox", 0.5, 0.0), ("YeoJohnson", -0.5, 0.0), ("Manly", 0.4, 0.0), ("Modulus", 0.6, 0.0), ("LogNormal", 1.0, 0.0)]:
+            for mesh in ("structured", "unstructured"):
+                for stacked in (False, True):
+                    for check_shape in (True, False):
+                        name, lam, sh = nm
+                        dim = int(rng.integers(1, 4))
+                        if mesh == "structured":
+                            pos = [np.linspace(0, 3, int(rng.integers(2, 4))) + 0.1 * j for j in range(dim)]
+                            shape = tuple(len(q) for q in pos)
+                        else:
+                            npt = int(rng.integers(2, 7))
+                            pos = [rng.uniform(0, 3, npt) for _ in range(dim)]
+                            shape = (npt,)
+                        nf = int(rng.integers(1, 4)) if stacked else 1
+                        raw = rng.normal(0.2, 0.4, (nf,) + shape)
+                        msp, tsp = rand_fv(rng, 0.5), rand_fv(rng, 0.25)
+                        mean, trend = fv_of(msp), fv_of(tsp)
+                        nz = make(name, lam, sh)
+                        fld = raw if stacked else raw[0]
+                        if not check_shape and mesh == "structured" and stacked:
+                            pass
+                        desc = dict(kind="helpers", normalizer=name, lmbda=C.fhex(lam), shift=C.fhex(sh), mesh=mesh, stacked=stacked,
+                                    check_shape=check_shape, mean=msp, trend=tsp, pos=[hexl(q) for q in pos], raw=hexl(raw), shape=list(raw.shape))
+                        pk = dict(mean=mean, normalizer=nz, trend=trend, mesh_type=mesh, check_shape=check_shape, stacked=stacked)
+                        with Quiet():
+                            try:
+                                out = np.asarray(apply_mean_norm_trend(pos, fld.copy(), **pk), dtype=float)
+                                back = np.asarray(remove_trend_norm_mean(pos, out.copy(), **pk), dtype=float)
+                                out_cls = np.asarray(apply_mean_norm_trend(pos, fld.copy(), **dict(pk, normalizer=type(nz) if name in ("Normalizer", "LogNormal") else nz)), dtype=float)
+                            except Exception as e:
+                                ctx.violation("probe: pipeline helpers raised", "apply/remove (%s, stacked=%s, check_shape=%s) raised %r" % (mesh, stacked, check_shape, e),
+                                              desc, key="helpers-raise")
+                                continue
+                        ctx.count(("helpers", name, mesh, stacked, check_shape, dim), hist=dict(accessor="apply/remove helpers", helper_opts="%s stacked=%s check_shape=%s" % (mesh, stacked, check_shape)))
+                        pts = points_of(pos, mesh, dim)
+                        means = eval_on(mean, pts, dim, "scalar", None)
+                        trends = eval_on(trend, pts, dim, "scalar", None)
+                        msgs = []
+                        if out.shape != fld.shape or not C.bit_equal(out, out_cls):
+                            msgs.append("output shape %r for field shape %r / normalizer given as class differs" % (out.shape, fld.shape))
+                        else:
+                            for j in range(nf):
+                                o_j = (out[j] if stacked else out).ravel()
+                                r_j = raw[j].ravel()
+                                b_j = (back[j] if stacked else back).ravel()
+                                mo = drv.call("apply_field", ("n", KINDS[name]), lam, sh, means, trends, r_j)
+                                mb = drv.call("remove_field", ("n", KINDS[name]), lam, sh, means, trends, o_j)
+                                So = np.abs(o_j - trends) + np.abs(trends) + abs(sh) + 2
+                                with Quiet():
+                                    dz = np.abs(np.asarray(nz.derivative(o_j - trends), dtype=float))
+                                Sb = np.where(np.isfinite(dz), dz, np.inf) * So + np.abs(b_j) + np.abs(means) + 1
+                                if not agree(o_j, mo, So).all():
+                                    i = int(np.argmin(agree(o_j, mo, So)))
+                                    msgs.append("apply_mean_norm_trend field %d [%d] = %r, trend + denormalize(mean + raw) = %r" % (j, i, float(o_j[i]), float(mo[i])))
+                                    break
+                                if not agree(b_j, mb, Sb).all():
+                                    i = int(np.argmin(agree(b_j, mb, Sb)))
+                                    msgs.append("remove_trend_norm_mean field %d [%d] = %r, normalize(field - trend) - mean = %r" % (j, i, float(b_j[i]), float(mb[i])))
+                                    break
+                        if msgs:
+                            ctx.violation("probe: pipeline helpers vs the model", "%s, stacked=%s, check_shape=%s, %s(lmbda=%r): %s" % (mesh, stacked, check_shape, name, lam, "; ".join(msgs)),
+                                          desc, key="helpers:%s" % ("stacked" if stacked else "single"))
+
+
 # ------------------------------------------------------------------------------------------- run / replay
 
 def isclose_corr(ctx, drv, rng):
@@ -1531,11 +1771,14 @@ def run(ctx, only=None):
             pipeline(ctx, drv, rng)
             corr_fit(ctx, drv, rng)
             histories(ctx, drv, rng)
+            acc_get_mean(ctx, drv, rng)
+            acc_helpers(ctx, drv, rng)
             ctx.notes.append("model calls: %d; scalar correspondence disagreements: %d" % (drv.calls, nbad))
         sub = cfgs if ctx.tier == "thorough" else [c for i, c in enumerate(cfgs) if c[1] in LAMBDAS[:14] or i % 3 == 0]
         probes_scalar(ctx, rng, sub)
         probes_likelihood(ctx, rng)
         probes_fit_skip(ctx, rng)
+        acc_input_classes(ctx, rng)
     finally:
         if drv:
             drv.close()
